@@ -92,6 +92,8 @@ def evaluate(ct, kwargs, adapter=None):
     ns = dict(spec_namespace())
     fn = real_function(ct)
     if ct.bounded and ct.bounded.get("share"):
+        from rt.adapters import _wrap
+        kwargs = {k: _wrap(v) for k, v in kwargs.items()}     # issue dicts readable as objects (the Issue class model)
         args = old = kwargs              # pure function whose contract speaks about object identity
     else:
         args = copy.deepcopy(kwargs)
